@@ -5,6 +5,12 @@ from the C sources, and the single Montgomery constant of pfok.  The scheme theo
 PropsB96, PropsG12, PropsDstuSig, PropsDstuPoint, PropsPfok.
 -/
 import Bee2V.C16.Inst
+import Bee2V.C16.PropsB96
+import Bee2V.C16.PropsG12
+import Bee2V.C16.PropsDstuSig
+import Bee2V.C16.PropsDstuPoint
+import Bee2V.C16.PropsPfok
+import Bee2V.C16.ToySig
 namespace Bee2V.C16
 open Bee2V.Gen
 
